@@ -76,6 +76,8 @@ func streamCase(ctx *Ctx, max int, wire []byte, sched []readEv, exp *streamExpec
 		switch r.Kind {
 		case "panic":
 			c07(ctx, "no-panic", "stream:panic "+panicKey(r.Panic), "Recv panicked: "+r.Panic, line)
+			// Recv decodes what it framed: a panic is a decoder robustness failure as well
+			ctx.Res.Violate(report.Violation{Property: "C02", Oracle: "no-panic", Key: "stream:panic " + panicKey(r.Panic), Detail: r.Panic, Line: line})
 		case "m":
 			if exp != nil && got < len(exp.msgs) {
 				it, cerr := fromValue(r.Value)
